@@ -50,6 +50,14 @@ def obligations(ctx):
                 idx += 1
                 obs.append(vg.vec_ob(op, var, 4, rsz, asz, bsz if op in (3, 4) else 0, vg.STRIDES[idx % 3] if not alias else (0, 0, 0), avx=idx % 2, alias=alias,
                                      pmode=0, p=-5 if op == 5 else 7))
+    # in-place calls on a prefix (res == a, res_size < a_size): the source limbs that are not part of the output are bit-identical afterwards
+    for (op, var) in ((1, 0), (2, 0), (5, 0), (6, 0), (5, 1), (6, 1)):
+        for (rsz, asz) in ((1, 3), (0, 2), (2, 3)):
+            so = (1, 1, 0) if var == 0 else (0, 0, 0)
+            if op in (5, 6):
+                obs.append(vg.vec_ob(op, var, 4, rsz, asz, 0, so, avx=(rsz + asz) % 2, alias=1, pmode=1, tag="inplace-prefix/", timeout=600))
+            else:
+                obs.append(vg.vec_ob(op, var, 4, rsz, asz, 0, so, avx=(rsz + asz) % 2, alias=1, tag="inplace-prefix/"))
     # normalization (vector, big and range forms): the source - more, as many or fewer limbs than the result - is bit-identical afterwards (C05 harness, which
     # snapshots the whole source allocation including stride padding)
     from vf.props import c05
